@@ -196,3 +196,42 @@ pub fn cpu_now() -> f64 {
         START.get_or_init(std::time::Instant::now).elapsed().as_secs_f64()
     }
 }
+
+
+/// A private copy of an input in a heap block of exactly the needed size, starting `off` bytes into
+/// the block. Nothing readable follows the last byte (under ASan / valgrind / Miri the very next
+/// byte is a red zone, so an over-read of even one byte is reported), and the start address is
+/// misaligned by `off` (word-sized loads through pointer casts trip the alignment checks of the
+/// debug-assertion build and of Miri). Natively an over-read lands in allocator slack and shows up
+/// only through its effect on the result.
+pub struct Tight {
+    buf: Box<[u8]>,
+    off: usize,
+}
+
+impl Tight {
+    pub fn new(bytes: &[u8], salt: u64) -> Tight {
+        const OFFS: [usize; 8] = [0, 1, 2, 3, 0, 5, 4, 7];
+        let off = OFFS[((salt ^ (salt >> 17) ^ bytes.len() as u64) % 8) as usize];
+        let mut v = Vec::with_capacity(off + bytes.len());
+        v.resize(off, 0xC5);
+        v.extend_from_slice(bytes);
+        Tight { buf: v.into_boxed_slice(), off }
+    }
+}
+
+impl std::ops::Deref for Tight {
+    type Target = [u8];
+    fn deref(&self) -> &[u8] {
+        &self.buf[self.off..]
+    }
+}
+
+/// `Tight::new` with the salt taken from the content
+pub fn tight(bytes: &[u8]) -> Tight {
+    let mut h: u64 = 0xcbf29ce484222325;
+    for b in bytes.iter().take(64) {
+        h = (h ^ *b as u64).wrapping_mul(0x100000001b3);
+    }
+    Tight::new(bytes, h)
+}
